@@ -42,7 +42,11 @@ def _normalised(F, b, op, dataflow):
                                 cb = F.bodies.get(d[3][2])
                                 if cb is not None and any(name(cc).endswith("FlattenConfigObject::to_emmyrc") for _, cc in cb.calls()) and \
                                         any(name(cc).endswith("FlattenConfigObject::parse") for _, cc in cb.calls()):
-                                    return True, ""
+                                    # the closure's result is to_emmyrc()'s result on EVERY path (no branch that hands the raw item on)
+                                    rr = dataflow.roots(cb, 0)
+                                    if rr and all(r[0] == "call" and name(cb.blocks[r[1]][2][1]).endswith("FlattenConfigObject::to_emmyrc") for r in rr):
+                                        return True, ""
+                                    return False, "the normalising map() closure returns the raw item on some path (normalisation is conditional)"
         return False, "the items of the merged sequence are the raw parsed files"
     return False, "operand does not come from to_emmyrc()"
 
